@@ -381,9 +381,27 @@ def _eval_test(t, env):
     raise _Unknown()
 
 
+def length_update_table(stmts, target, addend):
+    """Symbolically run `stmts` for target None / not None (addend never None): returns {target_is_None: value afterwards}
+    where the value is a '+'-joined sorted list of the symbols C (old target) and R (addend), or 'None' / 'TypeError'."""
+    out = {}
+    for tn in (False, True):
+        env = {target: None if tn else "C", addend: "R"}
+        try:
+            _exec_block(stmts, env, addend, target)
+        except _TypeErr:
+            out[tn] = "TypeError"
+            continue
+        v = env[target]
+        out[tn] = "None" if v is None else "+".join(sorted(x for x in v.split("+") if x != "0")) or "0"
+    return out
+
+
 def _eval_val(e, env):
     if norm(e) in env:
         return env[norm(e)]
+    if isinstance(e, ast.Constant) and e.value in (0, 0.0) and not isinstance(e.value, bool):
+        return "0"
     if isinstance(e, ast.BinOp) and isinstance(e.op, ast.Add):
         a, b = _eval_val(e.left, env), _eval_val(e.right, env)
         if a is None or b is None:
